@@ -94,7 +94,11 @@ impl WorldCfg {
     pub fn swarm(rng: &mut Rng) -> Self {
         WorldCfg {
             n_groups: if rng.chance(1, 5) { 2 } else { 1 },
-            n_banks: if rng.chance(1, 12) { rng.range(8, 10) as usize } else { rng.range(2, 5) as usize },
+            n_banks: match rng.below(36) {
+                0 => 17, // more banks than an account has slots
+                1 | 2 | 3 => rng.range(8, 10) as usize,
+                _ => rng.range(2, 5) as usize,
+            },
             n_users: rng.range(2, 5) as usize,
             magnitude: *rng.pick(&[0u8, 0, 1, 1, 1, 2]),
             allow_t22: rng.chance(2, 3),
